@@ -25,10 +25,12 @@ EQUAL = [
     ("x ** 2", "x * x"),
     ("q / (td - tr) * s", "s * q / (td - tr)"),
     ("torch.where(obs == tgt, amp, 0)", "amp * (obs == tgt)"),
+    ("(a if flag else b).view(-1, 3)", "a.view(-1, 3) if flag else b.view(-1, 3)"),
     ("torch.where(m(obs), a, d * 0)", "a * m(obs)"),
 ]
 UNEQUAL = [
     ("(f if not t else t)(x)", "x"),
+    ("torch.where(m > 0, a, b).sum()", "torch.where(m > 0, a.sum(), b.sum())"),
     ("a - b", "a + b"),
     ("torch.exp(-a/tc)", "torch.exp(a/tc)"),
     ("torch.where(c > 0, x, y)", "torch.where(c > 0, y, x)"),
